@@ -1,10 +1,10 @@
 package main
 
 import (
-	"os"
 	"fmt"
 	"go/token"
 	"go/types"
+	"os"
 	"sort"
 	"strings"
 
@@ -633,7 +633,6 @@ func (c *Ctx) ruleLoopBodyOutcome(rule, name string, f *ssa.Function, bodyC *ssa
 	c.Check(rule, name+"#returned-flag-tested", okT, bodyC.Pos(), "after the body the returned-flag must be tested before the next iteration")
 }
 
-
 // breakEdgeReturnsNil: after intercepting break, the loop statement ends normally (nil error, flag false).
 func (x *FnIndex) breakEdgeReturnsNil(first ssa.Instruction) bool {
 	ok := true
@@ -733,7 +732,9 @@ func (c *Ctx) ruleS4(rule string) {
 		for k := range nilBody {
 			errEdges[k] = true
 		}
-		_, setErrNotNil := x.nilEdges(f, func(v ssa.Value) bool { return x.Origin(v) == ssa.Value(set) || x.Origin(v) == x.Origin(ssa.Value(set)) })
+		_, setErrNotNil := x.nilEdges(f, func(v ssa.Value) bool {
+			return x.Origin(v) == ssa.Value(set) || x.Origin(v) == x.Origin(ssa.Value(set))
+		})
 		for k := range setErrNotNil {
 			errEdges[k] = true
 		}
